@@ -110,6 +110,8 @@ def check_C07(tier):
     wd = vlib.workdir("C07")
     r = vlib.model_check("MC_Chunk.tla", "MC_Chunk_lib.cfg", wd, need_actions=["SendData", "SendSetCS", "Cont"])
     out.add_s1(r, "MC_Chunk_lib")
+    r = vlib.model_check("MC_Wire.tla", "MC_Wire.cfg", wd, workers=4)
+    out.add_s1(r, "MC_Wire (ChunkWire reads back field-by-field encodings; every strict prefix is 'need more'; csid minimality)")
     logs = chunk_logs(wd, "ser_all", tier) + chunk_logs(wd, "ser_fixed", tier, shards=4) + chunk_logs(wd, "big", tier)
     chunk_validate(out, logs, wd, False, True, is_ser, "c07")
     s5(out, "Trace_Chunk.tla", dict(REAL, AllowDrops=False, CheckWire=True), logs[0][0], "chunk_wire", wd)
@@ -590,6 +592,11 @@ def check_C20(tier):
     wd = vlib.workdir("C20")
     r = vlib.model_check("MC_Clock.tla", "MC_Clock.cfg", wd)
     out.add_s1(r, "MC_Clock (limb arithmetic refines flat arithmetic modulo Base^2; clock laws; Base = 16, all 65536 pairs)")
+    u1 = vlib.apalache("U32Apa.tla", wd, ["--cinit=CInit", "--init=Init", "--inv=Inv", "--length=0"])
+    vlib.apalache("U32Apa.tla", wd, ["--cinit=CInit", "--init=Init", "--inv=NegControl", "--length=0"], expect_error=True)
+    out.cov["apalache_u32"] = {"result": "the limb operators of U32 (used by every trace specification) agree with flat arithmetic modulo 2^32 and "
+                               "satisfy the clock laws for ALL word pairs with Base = 65536; negative control (antipodal distance counted as later) is refuted",
+                               "wall_s": round(u1["wall"], 1)}
     a = vlib.apalache("ClockFlatApa.tla", wd, ["--cinit=CInit", "--init=Init", "--inv=Inv", "--length=0"])
     out.cov["apalache"] = {"result": "Inv (AddSubInverse, ExactModulo, EqualIff, Antisymmetric, OrderOfSum, AgreesWithLater, "
                            "Antipodal) holds for ALL (a, d) in [0, 2^32)^2 for the transcription of time.rs", "wall_s": round(a["wall"], 1)}
